@@ -241,7 +241,20 @@ def check(run):
         return pfi.canon(e, st_) if st_ is not None else ast.unparse(e)
 
     GROUPS = f"trimesh.graph.connected_components(P_{mp_}.face_adjacency)"
-    body_loops = [n for n in ast.walk(fi.node) if isinstance(n, ast.For) and cfi(n.iter) == GROUPS]
+    from ..dag import Values
+    Vfi = Values(ix, fi)
+    GV = f"trimesh.graph.connected_components(edges=P_{mp_}.face_adjacency)"
+    VOLT = [f"trimesh.triangles.mass_properties(crosses=P_{mp_}.triangles_cross[_F_], skip_inertia=True, triangles=P_{mp_}.triangles[_F_])['volume']",
+            f"trimesh.triangles.mass_properties(crosses=P_{mp_}.triangles_cross[_F_], skip_inertia=True, triangles=P_{mp_}.triangles[_F_]).volume",
+            f"trimesh.triangles.mass_properties(skip_inertia=True, triangles=P_{mp_}.triangles[_F_])['volume']",
+            f"trimesh.triangles.mass_properties(triangles=P_{mp_}.triangles[_F_])['volume']"]
+    # the per-body loop: over the connected components, possibly zipped with the per-component volumes
+    body_loops = []
+    for n_ in ast.walk(fi.node):
+        if isinstance(n_, ast.For):
+            itn = Vfi.value(n_.iter, n_)
+            if Vfi.match(GV, itn) is not None or Vfi.match(f"zip({GV}, _e_VOLS)", itn) is not None:
+                body_loops.append(n_)
     VOLNEG = (f"P_{mp_}.volume < 0.0", f"P_{mp_}.volume < 0")
 
     def _inverts(st):
@@ -280,23 +293,31 @@ def check(run):
     ok = False
     detail = "no per-body loop"
     for lp in body_loops:
-        tv = lp.target.id if isinstance(lp.target, ast.Name) else None
         marks = [st for st in ast.walk(lp) if isinstance(st, ast.Assign) and isinstance(st.targets[0], ast.Subscript) and isinstance(st.targets[0].value, ast.Name)
-                 and ast.unparse(st.targets[0].slice) == tv and ast.unparse(st.value) == "True"]
+                 and ast.unparse(st.value) == "True"]
         if len(marks) != 1:
             detail = f"{len(marks)} flag stores in the loop"
             continue
-        g = pfi.guards(marks[0])
-        VOL = (f"trimesh.triangles.mass_properties(P_{mp_}.triangles[EACH({GROUPS})], crosses=P_{mp_}.triangles_cross[EACH({GROUPS})], skip_inertia=True)['volume']",
-               f"trimesh.triangles.mass_properties(P_{mp_}.triangles[EACH({GROUPS})], crosses=P_{mp_}.triangles_cross[EACH({GROUPS})], skip_inertia=True).volume",
-               f"trimesh.triangles.mass_properties(P_{mp_}.triangles[EACH({GROUPS})], skip_inertia=True)['volume']",
-               f"trimesh.triangles.mass_properties(P_{mp_}.triangles[EACH({GROUPS})])['volume']")
-        gok = bool(g) and any(match_expr(f"{v_} < 0.0", g[-1]) is not None for v_ in VOL)
-        mask = marks[0].targets[0].value.id
+        mk = marks[0]
+        idx = Vfi.value(mk.targets[0].slice, mk)
+        each = Vfi.match(f"EACH({GV})", idx) is not None or Vfi.match(f"EACH(zip({GV}, _e_VOLS))[0]", idx) is not None
+        tests = [(Vfi.value(i.test, i), pos) for i, pos in Vfi.pv.enclosing_tests(mk) if any(i is x for x in ast.walk(lp))]
+        gok = False
+        for g_, pos in tests:
+            lt = Vfi.match("_e_VOL < 0.0", g_) or Vfi.match("_e_VOL < 0", g_)
+            if not (lt and pos):
+                continue
+            F = Vfi.dag._ident(idx)
+            if any(Vfi.match(t_.replace("_F_", F), lt["_e_VOL"]) is not None for t_ in VOLT):
+                gok = True  # the volume of exactly the faces that get flagged
+            zv = Vfi.match(f"EACH(zip({GV}, _e_VOLS))[1]", lt["_e_VOL"])
+            if zv is not None and any(Vfi.match(f"[{t_.replace('_F_', '_v_f')} for _v_f in {GV}]", zv["_e_VOLS"]) is not None for t_ in VOLT):
+                gok = True  # zipped: the i-th volume belongs to the i-th component
+        mask = mk.targets[0].value.id
         flips = [st for st in ast.walk(fi.node) if isinstance(st, ast.Assign) and ast.unparse(st.targets[0]) == f"{mp_}.faces[{mask}]"
                  and ast.unparse(st.value) in (f"np.fliplr({mp_}.faces[{mask}])", f"{mp_}.faces[{mask}][:, ::-1]", f"numpy.fliplr({mp_}.faces[{mask}])")]
-        ok = gok and len(flips) == 1
-        detail = f"flag raised under `{(g[-1] if g else '')[:70]}`; rows of the flag reversed column-wise: {len(flips) == 1}"
+        ok = gok and each and len(flips) == 1
+        detail = f"flag raised for the component whose own signed volume is negative: {gok and each}; rows of the flag reversed column-wise: {len(flips) == 1}"
     run.instance("R5", fi.where, f"per body: signed volume of the body's own triangles; negative bodies are flipped column-wise ({detail})", ok)
     if not ok:
         run.violation("R5", fi.where, "fix_inversion's per-body volume test or flip changed", key=key_of("C18-R5", "per-body"))
